@@ -115,7 +115,8 @@ def exact_float(run, tier, nprng):
                         run.violation({"kind": "preemph_raised", "dtype": str(np.dtype(dt)), "n": n, "coeff": coeff, "in_place": ip, "error": repr(e)})
                         continue
                     run.evaluations += 1
-                    if got.dtype.newbyteorder("=") != np.dtype(dt) or got.shape != want.shape or (
+                    # ("cast back to the input dtype": the very dtype of the array handed in, byte order included)
+                    if got.dtype != arg.dtype or got.shape != want.shape or (
                             # (the padding bytes of an 80-bit long double are not part of its value)
                             not np.array_equal(got, want) if dt is np.longdouble else got.astype(dt).tobytes() != want.tobytes()):
                         bad = int(np.sum(got != want)) if got.shape == want.shape else -1
@@ -140,7 +141,7 @@ def dither(run, tier):
                         np.random.seed(99)
                         got = d.apply(arg, in_place=ip)
                         run.evaluations += 1
-                        if got.dtype.newbyteorder("=") != np.dtype(dt) or got.shape != x.shape:
+                        if got.dtype != arg.dtype or got.shape != x.shape:
                             run.violation({"kind": "dither_dtype_or_shape", "dtype": str(np.dtype(dt)), "n": n})
                             continue
                         if not ip and not np.array_equal(arg, x):
@@ -171,6 +172,24 @@ def dither(run, tier):
             if not flag and not np.array_equal(arg, x):
                 run.violation({"kind": ("preemph" if isinstance(op, pre.Preemphasize) else "dither") + "_modified_input", "in_place": repr(flag),
                                "dtype": "float64", "n": 40})
+    # in_place=True on an array that cannot be written to: for every type but float64 the result is a new array anyway
+    # (the arithmetic runs in a float64 copy), so the same values come back
+    for dt in (np.int16, np.int32, np.float32, np.float16):
+        for op in (pre.Preemphasize(0.9), pre.Dither(0.5)):
+            name = "preemph" if isinstance(op, pre.Preemphasize) else "dither"
+            x = (np.arange(40) * 3 - 7).astype(dt)
+            arg = np.frombuffer(x.tobytes(), dtype=dt)  # (read-only, as samples taken from a bytes object are)
+            run.evaluations += 1
+            try:
+                np.random.seed(3)
+                got = op.apply(arg, in_place=True)
+                np.random.seed(3)
+                want = op.apply(x.copy())
+            except Exception as e:
+                run.violation({"kind": name + "_raised", "dtype": str(np.dtype(dt)), "n": 40, "in_place": True, "input": "read-only", "error": repr(e)})
+                continue
+            if got.dtype != want.dtype or not np.array_equal(got, want):
+                run.violation({"kind": "in_place_flag_changes_values", "op": type(op).__name__, "in_place": "True", "input": "read-only " + str(np.dtype(dt))})
     # the signal may be an ndarray subclass (a memory-mapped recording, a user's own subclass): still untouched
     import tempfile
 
